@@ -1049,6 +1049,8 @@ def construct(eng, ci, args, kwargs, fr, node):
     name = ci.name
     if eng.exc.known(name):
         return make_exc(eng, name, args, kwargs)
+    if name in OPAQUE_CLASSES:
+        return eng.fresh(ANY, name)
     if name in T.STRUCTS:
         fields = T.STRUCTS[name]
         vals = {}
@@ -1079,6 +1081,9 @@ def construct(eng, ci, args, kwargs, fr, node):
             from .engine import PathEnd
             raise PathEnd()
     return eng.construct_object(ci, args, kwargs, fr, node)
+
+
+OPAQUE_CLASSES = {'_ReprRequest'}      # log-formatting helpers: no behaviour the contracts depend on
 
 
 def make_exc(eng, name, args, kwargs):
@@ -1277,10 +1282,13 @@ def unit_entry_names(eng, fr):
     """frame in which the unit's parameters denote their entry values but `self` fields are read from the current heap"""
     from .engine import Frame
     f = Frame(fr.func if fr is not None else None, fr)
+    params = set()
+    if eng.unit_func is not None:
+        params = {a.arg for a in eng.unit_func.node.args.args}
     top = fr
     while top is not None:
         for k_, v_ in top.ghost.items():
-            if k_.startswith('old_'):
+            if k_.startswith('old_') and k_[4:] in params:
                 f.vars.setdefault(k_[4:], v_)
         top = top.parent
     f.ghost = dict(fr.ghost) if fr is not None else {}
